@@ -75,48 +75,78 @@ def gen(rng, tier):
     return out
 
 
-def stress_inputs(tier):
-    """very long flat chains and very deep nestings: run on the implementation only (worker processes)"""
-    n = 20000 if tier == "quick" else 100000
+def stress_families():
+    """very long flat chains and very deep nestings, as functions of the size n"""
     return [
-        ("flat-and", " and ".join(["tt"] * n)),
-        ("flat-or-cmp", " or ".join(["num == 1"] * (n // 2))),
-        ("deep-paren", "(" * n + "tt" + ")" * n),
-        ("deep-not", "not " * n + "tt"),
-        ("deep-bang", "!" * n + "tt"),
-        ("deep-call", "echo(" * n + "str" + ")" * n + " == \"a\""),
-        ("deep-index", "grid" + "[0]" * n),
-        ("deep-any", "any(" * n + "bools" + ")" * n),
-        ("long-list", "num in {" + " ".join(str(i) for i in range(n)) + "}"),
-        ("long-string", "str == \"" + "a" * (10 * n) + "\""),
-        ("unclosed-deep", "(" * n),
-        ("brackets", "[" * n),
+        ("flat-and", lambda n: " and ".join(["tt"] * n)),
+        ("flat-or-cmp", lambda n: " or ".join(["num == 1"] * (n // 2))),
+        ("deep-paren", lambda n: "(" * n + "tt" + ")" * n),
+        ("deep-not", lambda n: "not " * n + "tt"),
+        ("deep-bang", lambda n: "!" * n + "tt"),
+        ("deep-call", lambda n: "echo(" * n + "str" + ")" * n + " == \"a\""),
+        ("deep-index", lambda n: "grid" + "[0]" * n),
+        ("deep-any", lambda n: "any(" * n + "bools" + ")" * n),
+        ("long-list", lambda n: "num in {" + " ".join(str(i) for i in range(n)) + "}"),
+        ("long-string", lambda n: "str == \"" + "a" * (10 * n) + "\""),
+        ("unclosed-deep", lambda n: "(" * n),
+        ("brackets", lambda n: "[" * n),
     ]
 
 
+def stress_inputs(tier):
+    n = 20000 if tier == "quick" else 100000
+    return [(name, f(n)) for name, f in stress_families()]
+
+
 def post(ctx):
-    """size stress: the real parser in fresh worker processes with a small stack must return Ok/Err (no crash)"""
-    import os
+    """size stress: the stack the real parser needs must not grow with the input.  For each family the smallest
+       stack (a power of two of KiB) that parses an instance of size 400 - already beyond the nesting limit of 128 -
+       is measured in fresh worker processes; the instance of size 2e4 / 1e5 must then return Ok/Err with twice that
+       stack (and with the default 8 MiB)."""
     import subprocess
     import vp
     sch = lg.rich_scheme()
     res = []
     viol = []
-    for name, text in stress_inputs(ctx["tier"]):
+
+    def run(text, stack_kb):
         line = parse_case(sch, text, 128)
-        for stack_kb in (8192, 256):
-            cmd = "ulimit -s %d; exec %s" % (stack_kb, vp.harness_bin())
-            p = subprocess.run(["bash", "-c", cmd], input=(line + "\n").encode(), stdout=subprocess.PIPE,
-                               stderr=subprocess.PIPE, timeout=600)
-            outl = p.stdout.decode("utf-8", "replace").strip()
-            ok = p.returncode == 0 and (outl.startswith("(ok") or outl.startswith("(err"))
-            res.append({"input": name, "len": len(text), "stack_kb": stack_kb, "rc": p.returncode,
-                        "answer": outl[:60]})
+        cmd = "ulimit -s %d; exec %s" % (stack_kb, vp.harness_bin())
+        p = subprocess.run(["bash", "-c", cmd], input=(line + "\n").encode(), stdout=subprocess.PIPE,
+                           stderr=subprocess.PIPE, timeout=600)
+        outl = p.stdout.decode("utf-8", "replace").strip()
+        ok = p.returncode == 0 and (outl.startswith("(ok") or outl.startswith("(err"))
+        return ok, p, outl
+
+    n = 20000 if ctx["tier"] == "quick" else 100000
+    for name, fam in stress_families():
+        small = fam(400)
+        need = None
+        kb = 64
+        while kb <= 8192:
+            ok, p, outl = run(small, kb)
+            if ok:
+                need = kb
+                break
+            kb *= 2
+        if need is None:
+            rec = {"property": "C05", "verdict": "the parser crashed or did not answer on a small input even with 8 MiB of stack",
+                   "input": name, "length": len(small), "rc": p.returncode,
+                   "stderr": p.stderr.decode("utf-8", "replace")[-400:], "text": small}
+            viol.append(("stress", vp.write_replay("C05", rec), ""))
+            continue
+        big = fam(n)
+        for stack_kb in (2 * need, 8192):
+            ok, p, outl = run(big, stack_kb)
+            res.append({"input": name, "len": len(big), "stack_kb": stack_kb, "stack_kb_needed_at_size_400": need,
+                        "rc": p.returncode, "answer": outl[:60]})
             if not ok:
-                rec = {"property": "C05", "verdict": "the parser crashed or did not answer on a large input",
-                       "input": name, "length": len(text), "stack_kb": stack_kb, "rc": p.returncode,
+                rec = {"property": "C05",
+                       "verdict": "stack use grows with the input: size 400 parses with %d KiB, size %d crashes or does not "
+                                  "answer with %d KiB" % (need, n, stack_kb),
+                       "input": name, "length": len(big), "stack_kb": stack_kb, "rc": p.returncode,
                        "stderr": p.stderr.decode("utf-8", "replace")[-400:],
-                       "rerun": "python3 -c \"...\" see tools/props/c05.py stress_inputs"}
+                       "rerun": "see tools/props/c05.py stress_families()['%s'](%d)" % (name, n)}
                 viol.append(("stress", vp.write_replay("C05", rec), ""))
     return {"coverage": {"stress": res}, "violations": viol}
 
@@ -132,7 +162,7 @@ def distribution(lines):
 PROP = {
     "id": "C05",
     "prop_file": "theories/Props/C05.v",
-    "proof_files": [],
+    "proof_files": ["theories/Proofs/ParserClosed.v", "theories/Proofs/ParserProofs.v", "theories/Proofs/LexFacts.v", "theories/Proofs/TypingProofs.v"],
     "gen": gen,
     "compare_spec": False,
     "post": post,
@@ -141,6 +171,7 @@ PROP = {
     "rule": "valid filters with 1-3 character/token insertions, deletions, replacements, duplications, truncations; token "
             "soups over the language's vocabulary; random strings over its alphabet incl. multi-byte characters; multi-line "
             "inputs; compared with the parser model on Ok(AST) / Err(kind, line, column, length) (Display is also rendered "
-            "on the implementation side and must not panic). Size stress (1e5 operands / nestings / list items) on the "
-            "implementation only, in worker processes with 8 MiB and 256 KiB stacks.",
+            "on the implementation side and must not panic). Size stress (2e4 / 1e5 operands, nestings, list items) on "
+            "the implementation only, in fresh worker processes: the stack needed must not grow with the input (twice the "
+            "stack that suffices at size 400 must suffice at full size).",
 }
